@@ -62,7 +62,7 @@ func litObserve(p string, d []byte, off int) J {
 			if len(litFiles) > 4000 {
 				litFiles = map[string]*text.File{}
 			}
-			f = text.NewFile("f", append([]byte{}, d...))
+			f = mkFile("f", d)
 			litFiles[string(d)] = f
 		}
 		if f.Len() != len(d) {
